@@ -264,7 +264,9 @@ class Error:
         body = f"{self.reason}\r\n\r\n{self.body}"
         ident = ident if ident else "server"
         tag = f"\r\n\r\n(generated by {ident})"
-        body = (body + tag).encode("utf-8")
+        # the body may carry an exposed traceback with arbitrary text (e.g. a
+        # lone surrogate from an undecodable file name): never fail here
+        body = (body + tag).encode("utf-8", "backslashreplace")
         headers = [("Content-Type", "text/plain; charset=utf-8")]
 
         return status, headers, body
